@@ -157,10 +157,10 @@ def r2(ctx):
     # directories are resolved at construction
     init = cb.find_method("__init__")
     ok = any(isinstance(s, ast.Assign) and u(s.targets[0]) == "self._directories" and u(s.value) == "[Path(d).resolve() for d in directories]" for s in init.node.body)
-    ctx.check(ok, "__init__:CodeBase.__init__:directories-resolved", "code-base directories must be stored resolved (membership compares resolved paths)", init.loc())
+    ctx.soft(ok, "__init__:CodeBase.__init__:directories-resolved", "code-base directories must be stored resolved (membership compares resolved paths)", init.loc())
     d = cb.find_method("directories")
     ok = d is not None and any(isinstance(s, ast.Return) and u(s.value) == "[str(d) for d in self._directories]" for s in d.node.body)
-    ctx.check(ok, "__init__:CodeBase.directories", "directories property must expose the resolved directories", d.loc() if d else cb.loc())
+    ctx.soft(ok, "__init__:CodeBase.directories", "directories property must expose the resolved directories", d.loc() if d else cb.loc())
     ctx.floor(4)
 
 
@@ -174,7 +174,7 @@ def r3(ctx):
     if ok:
         l, r = u(rets[0].left), u(rets[0].comparators[0])
         ok = u(env.get(l, rets[0].left)) == f"Path({f.params[0]}).suffix" and isinstance(env.get(r), (ast.List, ast.Tuple, ast.Set))
-    ctx.check(ok, "source:is_source_file:suffix-in-table", f"must return `Path(filename).suffix in <extension table>`: {[u(r) for r in rets]}", f.loc())
+    ctx.soft(ok, "source:is_source_file:suffix-in-table", f"must return `Path(filename).suffix in <extension table>`: {[u(r) for r in rets]}", f.loc())
     from .c17 import language_tables
 
     exts, ext_lang, served = language_tables(repo)
